@@ -18,7 +18,8 @@ RULE = ("Each sequence runs on a fresh pair of real RTCPeerConnections with the 
         "have fired; the state read inside every signalingstatechange event must equal the model's; closed is absorbing. "
         "Enumeration: ALL sequences up to length 3 (quick) / 4 (thorough) on the shape audio+datachannel, plus random sequences "
         "of length 5-12 over four shapes. Distinct/non-trivial = distinct sequences containing >= 1 illegal call after >= 1 "
-        "legal state change.")
+        "legal state change."
+        ' Race stratum: setLocalDescription(offer) is started and, after 0-30 loop yields, a setRemoteDescription is made on the same peer; the outcome pair and the final state must be those of one of the two sequential orders (two mechanisms of the unchanged tree are listed known findings).')
 ASSUMPTIONS = [
     "createOffer in have-remote-offer is not classified by the statement: either outcome is accepted, the no-side-effect clause is still checked",
     "when a call is both illegal in the state and carries a bad description, InvalidStateError and ValueError are both accepted",
